@@ -76,6 +76,7 @@ static Item gen_item(Rng& r, uint64_t domain, int kind) {
   else if (it.kind == 1) it.u = uint64_t(r.coin() ? -int64_t(x) : int64_t(x));
   else if (it.kind == 2) {
     if (r.chance(0.01)) it.s = "";
+    else if (x % 3 == 0) { char b[32]; snprintf(b, sizeof b, "customer_%06llu", static_cast<unsigned long long>(x)); it.s = b; }   // equal length, common 9-byte prefix
     else {
       it.s = "k" + std::to_string(x);
       if (x % 7 == 0) it.s += std::string(20, 'z');
@@ -84,6 +85,7 @@ static Item gen_item(Rng& r, uint64_t domain, int kind) {
       if (x % 11 == 3) it.s.insert(it.s.begin(), '\0');                              // leading NUL
     }
   }
+  else if (x % 3 == 0) { it.s = std::string("\x01\x02record-hdr", 12); for (int i = 0; i < 4; ++i) it.s += char(x >> (8 * i)); }      // 16-byte records, common 12-byte header
   else { size_t len = 1 + x % 33 + (x % 4 == 0 ? 64 + x % 200 : 0); it.s.assign(len, char(x)); for (size_t i = 0; i < len; ++i) it.s[i] = char((x >> (i % 8)) + i * 31); }
   return it;
 }
@@ -195,6 +197,7 @@ static void run_program(Rng& r) {
     md.emplace_back(nh, nb, seed);
     const uint64_t nupd = r.chance(0.15) ? 0 : r.below(T ? 4000 : 1200);
     const int wmode = int(r.below(4));
+    int prev_kind = -1; std::string prev_key;
     for (uint64_t i = 0; i < nupd; ++i) {
       Item it = r.chance(0.9) && !universe.empty() ? universe[r.below(universe.size())] : gen_item(r, domain, kind);
       W w;
@@ -211,6 +214,9 @@ static void run_program(Rng& r) {
                            case 2: sk[l]->update(it.s); break; default: sk[l]->update(it.s.data(), it.s.size(), W(1)); }
       } else sk_update(*sk[l], it, w);
       md[l].add(it, w);
+      if (it.kind >= 2 && it.kind == prev_kind && it.s.size() > 8 && it.s.size() == prev_key.size() && it.s != prev_key && it.s.compare(0, 8, prev_key, 0, 8) == 0)
+        count("consecutive_distinct_keys_same_length_same_8byte_prefix");
+      prev_kind = it.kind; prev_key = it.s;
       if (it.ignored()) count("empty_string_update");
       if (it.kind >= 2 && it.s.size() > 64) count("long_key_updates");
       if (it.kind == 2 && it.s.find('\0') != std::string::npos) count("embedded_nul_string_updates");
